@@ -69,6 +69,18 @@ macro_rules! run_entry {
     }};
 }
 
+macro_rules! run_migrate {
+    ($deps:expr, $env:expr, $step:expr, $mig:path, $mm:ty) => {{
+        match serde_json::from_value::<$mm>($step["msg"].clone()) {
+            Err(e) => json!({"msg_error": e.to_string()}),
+            Ok(m) => match $mig($deps.as_mut(), $env, m) {
+                Ok(resp) => json!({"ok": response_json(&resp)}),
+                Err(e) => json!({"err": e.to_string()}),
+            },
+        }
+    }};
+}
+
 pub fn canonicalize(v: &Value) -> Value {
     use cosmwasm_std::Api;
     let api = MockApi::default();
@@ -107,7 +119,16 @@ pub fn run(v: &Value) -> Value {
     for step in steps.iter() {
         let env2 = if step.get("env").is_some() { env_from(&step["env"], &me) } else { env.clone() };
         let snapshot: Vec<(Vec<u8>, Vec<u8>)> = deps.storage.range(None, None, cosmwasm_std::Order::Ascending).collect();
+        let is_migrate = step["entry"].as_str() == Some("migrate");
         let res = std::panic::catch_unwind(std::panic::AssertUnwindSafe(|| match contract.as_str() {
+            "hub" if is_migrate => run_migrate!(deps, env2, step, basset_sei_hub::contract::migrate, basset::hub::MigrateMsg),
+            "dispatcher" if is_migrate => run_migrate!(deps, env2, step, basset_sei_rewards_dispatcher::contract::migrate,
+                basset_sei_rewards_dispatcher::msg::MigrateMsg),
+            "reward" if is_migrate => run_migrate!(deps, env2, step, basset_sei_reward::contract::migrate, basset::reward::MigrateMsg),
+            "registry" if is_migrate => run_migrate!(deps, env2, step, basset_sei_validators_registry::contract::migrate,
+                basset_sei_validators_registry::msg::MigrateMsg),
+            "bsei" if is_migrate => run_migrate!(deps, env2, step, basset_sei_token_bsei::contract::migrate,
+                basset_sei_token_bsei::msg::MigrateMsg),
             "hub" => run_entry!(deps, env2, step, basset_sei_hub::contract::instantiate, basset_sei_hub::contract::execute,
                 basset_sei_hub::contract::query, basset::hub::InstantiateMsg, basset::hub::ExecuteMsg, basset::hub::QueryMsg),
             "dispatcher" => run_entry!(deps, env2, step, basset_sei_rewards_dispatcher::contract::instantiate,
